@@ -36,7 +36,7 @@ theorem jumpOkS_spec (g : BGraph) (j endV : Nat) (h : g.jumpOkS j endV = true) :
   obtain ⟨⟨⟨h0, hv⟩, hin⟩, hout⟩ := h
   refine ⟨h0, ?_, ?_, ?_⟩
   · split at hv
-    · rename_i nm r l c a4 a6 a7 a8 heq
+    · rename_i nm r l c a4 a6 a7 a8 b1 b2 b3 b4 b5 b6 b7 heq
       exact ⟨_, r, l, c, heq, rfl, rfl, rfl, hv⟩
     · cases hv
   · split at hin
